@@ -25,6 +25,7 @@ Ltac leaf_st :=
   | |- pres _ (upd_obs _ _) => apply (pres_modify Rst); intros ?; solve_write_st
   | |- pres _ (upd_expert _ _) => apply (pres_modify Rst); intros ?; solve_write_st
   | |- pres _ (upd_edge _ _) => apply (pres_modify Rst); intros ?; solve_write_st
+  | |- pres _ (upd_perkey _ _) => apply (pres_modify Rst); intros ?; solve_write_st
   | |- pres _ (collect _) => apply (pres_modify Rst); intros ?; solve_write_st
   | |- _ => solve [eauto with pres_st]
   end.
@@ -42,7 +43,8 @@ Global Hint Resolve st_value_of : pres_st.
 Lemma st_user_call : pres Rst user_call. Proof. prim user_call. Qed.
 Lemma st_get_expert x : pres Rst (get_expert x). Proof. prim get_expert. Qed.
 Lemma st_get_edge x : pres Rst (get_edge x). Proof. prim get_edge. Qed.
-Global Hint Resolve st_user_call st_get_expert st_get_edge : pres_st.
+Lemma st_get_perkey x : pres Rst (get_perkey x). Proof. prim get_perkey. Qed.
+Global Hint Resolve st_user_call st_get_expert st_get_edge st_get_perkey : pres_st.
 Lemma st_edge_on_change p e : pres Rst (edge_on_change p e). Proof. prim edge_on_change. Qed.
 Global Hint Resolve st_edge_on_change : pres_st.
 Lemma st_run_edge_callback p x ci : pres Rst (run_edge_callback p x ci). Proof. prim run_edge_callback. Qed.
@@ -148,6 +150,24 @@ Global Hint Resolve st_set_var_wns st_var_write st_observer_read : pres_st.
 Lemma st_drop_var_handle x : pres Rst (drop_var_handle x). Proof. prim drop_var_handle. Qed.
 Global Hint Resolve st_drop_var_handle : pres_st.
 Lemma st_with_var_handle x m : pres Rst m -> pres Rst (with_var_handle x m). Proof. intros; unfold with_var_handle; go_st. Qed.
+Lemma st_create_node k : pres Rst (create_node k). Proof. prim create_node. Qed.
+Global Hint Resolve st_create_node : pres_st.
+Lemma st_create_bind l f : pres Rst (create_bind l f). Proof. prim create_bind. Qed.
+Lemma st_resolve l o : pres Rst (resolve l o). Proof. prim resolve. Qed.
+Global Hint Resolve st_create_bind st_resolve : pres_st.
+Lemma st_memo_new f : pres Rst (memo_new f). Proof. prim memo_new. Qed.
+Global Hint Resolve st_memo_new : pres_st.
+Lemma st_memo_lookup mm k : pres Rst (memo_lookup mm k). Proof. prim memo_lookup. Qed.
+Lemma st_memo_store m k n : pres Rst (memo_store m k n). Proof. prim memo_store. Qed.
+Lemma st_within_scope {A} sc (f : M A) : pres Rst f -> pres Rst (within_scope sc f). Proof. intros; unfold within_scope; go_st. Qed.
+Global Hint Resolve st_memo_lookup st_memo_store : pres_st.
+Global Hint Extern 1 (pres Rst (within_scope _ _)) => (apply st_within_scope; go_st) : pres_st.
+Lemma st_instantiate_memo fuel :
+  (forall v b r, pres Rst (instantiate fuel v b r)) /\ (forall m k, pres Rst (memo_call fuel m k)).
+Proof. induction fuel as [|f [IH1 IH2]]; (split; intros; simpl; go_st). Qed.
+Lemma st_instantiate fuel v b r : pres Rst (instantiate fuel v b r). Proof. apply st_instantiate_memo. Qed.
+Lemma st_memo_call fuel m k : pres Rst (memo_call fuel m k). Proof. apply st_instantiate_memo. Qed.
+Global Hint Resolve st_memo_call st_instantiate : pres_st.
 Lemma st_assert_running_is_child n : pres Rst (assert_running_is_child n). Proof. prim assert_running_is_child. Qed.
 Global Hint Resolve st_assert_running_is_child : pres_st.
 Lemma st_expert_make_stale n : pres Rst (expert_make_stale n). Proof. prim expert_make_stale. Qed.
@@ -161,9 +181,15 @@ Lemma st_ex_pop_child_edge x : pres Rst (ex_pop_child_edge x). Proof. prim ex_po
 Global Hint Resolve st_ex_swap_children st_ex_pop_child_edge : pres_st.
 Lemma st_expert_remove_dependency fuel n e : pres Rst (expert_remove_dependency fuel n e). Proof. prim expert_remove_dependency. Qed.
 Lemma st_expert_invalidate fuel n : pres Rst (expert_invalidate fuel n). Proof. prim expert_invalidate. Qed.
+Lemma st_upgrade_unwrap n k : pres Rst (upgrade_unwrap n k). Proof. prim upgrade_unwrap. Qed.
+Global Hint Resolve st_expert_remove_dependency st_expert_invalidate st_upgrade_unwrap : pres_st.
+Lemma st_perkey_visit fuel pk kd : pres Rst (perkey_visit fuel pk kd). Proof. prim perkey_visit. Qed.
+Global Hint Resolve st_perkey_visit : pres_st.
+Lemma st_perkey_step fuel pk m : pres Rst (perkey_step fuel pk m). Proof. prim perkey_step. Qed.
+Global Hint Resolve st_perkey_step : pres_st.
 Lemma st_slot_get sl : pres Rst (slot_get sl). Proof. prim slot_get. Qed.
 Lemma st_slot_set sl v : pres Rst (slot_set sl v). Proof. prim slot_set. Qed.
-Global Hint Resolve st_expert_remove_dependency st_expert_invalidate st_slot_get st_slot_set : pres_st.
+Global Hint Resolve st_slot_get st_slot_set : pres_st.
 Lemma st_with_handle h k : (forall n, pres Rst (k n)) -> pres Rst (with_handle h k). Proof. intros; unfold with_handle; go_st. Qed.
 Global Hint Extern 1 (pres Rst (with_handle _ _)) => (apply st_with_handle; intros ?; go_st) : pres_st.
 Global Hint Extern 1 (pres Rst (with_var_handle _ _)) => (apply st_with_var_handle; go_st) : pres_st.
@@ -184,26 +210,8 @@ Proof. prim maybe_change_value_manual. Qed.
 Global Hint Resolve st_mcv_manual : pres_st.
 Lemma st_mcv fuel n v : pres Rst (maybe_change_value fuel n v). Proof. prim maybe_change_value. Qed.
 Global Hint Resolve st_mcv : pres_st.
-Lemma st_create_node k : pres Rst (create_node k). Proof. prim create_node. Qed.
-Global Hint Resolve st_create_node : pres_st.
-Lemma st_create_bind l f : pres Rst (create_bind l f). Proof. prim create_bind. Qed.
-Lemma st_resolve l o : pres Rst (resolve l o). Proof. prim resolve. Qed.
-Global Hint Resolve st_create_bind st_resolve : pres_st.
-Lemma st_memo_new f : pres Rst (memo_new f). Proof. prim memo_new. Qed.
-Global Hint Resolve st_memo_new : pres_st.
-Lemma st_memo_lookup mm k : pres Rst (memo_lookup mm k). Proof. prim memo_lookup. Qed.
-Lemma st_memo_store m k n : pres Rst (memo_store m k n). Proof. prim memo_store. Qed.
-Lemma st_within_scope {A} sc (f : M A) : pres Rst f -> pres Rst (within_scope sc f). Proof. intros; unfold within_scope; go_st. Qed.
-Global Hint Resolve st_memo_lookup st_memo_store : pres_st.
-Global Hint Extern 1 (pres Rst (within_scope _ _)) => (apply st_within_scope; go_st) : pres_st.
-Lemma st_instantiate_memo fuel :
-  (forall v b r, pres Rst (instantiate fuel v b r)) /\ (forall m k, pres Rst (memo_call fuel m k)).
-Proof. induction fuel as [|f [IH1 IH2]]; (split; intros; simpl; go_st). Qed.
-Lemma st_instantiate fuel v b r : pres Rst (instantiate fuel v b r). Proof. apply st_instantiate_memo. Qed.
-Lemma st_memo_call fuel m k : pres Rst (memo_call fuel m k). Proof. apply st_instantiate_memo. Qed.
-Global Hint Resolve st_memo_call : pres_st.
 Lemma st_unwrap_value n s : pres Rst (unwrap_value n s). Proof. prim unwrap_value. Qed.
-Global Hint Resolve st_instantiate st_unwrap_value : pres_st.
+Global Hint Resolve st_unwrap_value : pres_st.
 Lemma st_copy_child_bindrhs fuel n c : pres Rst (copy_child_bindrhs fuel n c). Proof. prim copy_child_bindrhs. Qed.
 Global Hint Resolve st_copy_child_bindrhs : pres_st.
 Lemma st_recompute_one fuel n : pres Rst (recompute_one fuel n). Proof. prim recompute_one. Qed.
